@@ -100,13 +100,23 @@ theorem trialOps_targets (n0 e : Nat) (cfg : TrialCfg) :
   unfold trialOps
   cases cfg.sel with
   | none =>
-    refine ⟨?_, Or.inl rfl⟩
-    intro op hop x hx
-    simp only [List.mem_append] at hop
-    rcases hop with (h | h) | h
-    · rw [mem_setItems h] at hx; left; exact (Option.some.inj hx).symm
-    · rw [mem_sortOps h] at hx; left; exact (Option.some.inj hx).symm
-    · rw [mem_setItems h] at hx; left; exact (Option.some.inj hx).symm
+    cases cfg.index with
+    | none =>
+      refine ⟨?_, Or.inl rfl⟩
+      intro op hop x hx
+      simp only [List.mem_append] at hop
+      rcases hop with h | h
+      · rw [mem_setItems h] at hx; left; exact (Option.some.inj hx).symm
+      · rw [mem_setItems h] at hx; left; exact (Option.some.inj hx).symm
+    | some idx =>
+      refine ⟨?_, Or.inr rfl⟩
+      intro op hop x hx
+      simp only [List.mem_append, List.mem_singleton] at hop
+      rcases hop with ((h | h) | h) | h
+      · rw [mem_setItems h] at hx; left; exact (Option.some.inj hx).symm
+      · subst h; simp [target] at hx
+      · rw [mem_sortOps h] at hx; right; exact (Option.some.inj hx).symm
+      · rw [mem_setItems h] at hx; right; exact (Option.some.inj hx).symm
   | some sel =>
     refine ⟨?_, Or.inr rfl⟩
     intro op hop x hx
@@ -119,7 +129,7 @@ theorem trialOps_targets (n0 e : Nat) (cfg : TrialCfg) :
 
 /-- the stored containers exist, and the cached MC copy is not one of them -/
 def RolesOK (n0 : Nat) (r : Roles) : Prop :=
-  r.exp < n0 ∧ r.mc < n0 ∧ ∀ c, r.cache = some c → c ≠ r.exp ∧ c ≠ r.mc
+  r.exp < n0 ∧ r.mc < n0 ∧ (∀ c, r.cache = some c → c ≠ r.exp ∧ c ≠ r.mc) ∧ (∀ ev, r.events = some ev → ev ≠ r.exp ∧ ev ≠ r.mc)
 
 end C07
 
@@ -129,7 +139,7 @@ theorem C07.cachePlan_spec (n0 : Nat) (r : Roles) (keep : List Name) (presel : O
     (∀ op ∈ (cachePlan n0 r keep presel).1, ∀ x, target op = some x → n0 ≤ x) ∧
     ((cachePlan n0 r keep presel).2.1 ≠ r.exp ∧ (cachePlan n0 r keep presel).2.1 ≠ r.mc) ∧
     n0 ≤ (cachePlan n0 r keep presel).2.2 := by
-  obtain ⟨he, hm, hc⟩ := hr
+  obtain ⟨he, hm, hc, _⟩ := hr
   unfold cachePlan
   cases hcache : r.cache with
   | some c => exact ⟨(by intro op hop; cases hop), hc c hcache, le_refl _⟩
@@ -161,25 +171,49 @@ theorem C07.compositePlan_spec (n0 : Nat) (presel : Option Sel) (draw : List Int
     simp only [List.mem_cons, List.not_mem_nil, or_false] at hop
     rcases hop with rfl | rfl | rfl <;> simp [target] at hx <;> omega
 
-/-- the roles after an operation: the stored containers keep their roles, a new cache is not a stored container -/
-theorem C07.compile_roles (n0 : Nat) (r : Roles) (gop : GOp) (hr : C07.RolesOK n0 r) :
+/-- the roles after an operation: the stored containers keep their roles, a new cache and the trial events are not
+stored containers -/
+theorem C07.compile_roles (n0 : Nat) (r : Roles) (gop : GOp) (hr : C07.RolesOK n0 r) (hh : HandlesOK r gop) :
     (compile n0 r gop).2.1.exp = r.exp ∧ (compile n0 r gop).2.1.mc = r.mc ∧
-    ∀ c, (compile n0 r gop).2.1.cache = some c → c ≠ r.exp ∧ c ≠ r.mc := by
+    (∀ c, (compile n0 r gop).2.1.cache = some c → c ≠ r.exp ∧ c ≠ r.mc) ∧
+    (∀ ev, (compile n0 r gop).2.1.events = some ev → ev ≠ r.exp ∧ ev ≠ r.mc) := by
+  have big : ∀ x, n0 ≤ x → x ≠ r.exp ∧ x ≠ r.mc := fun x hx => ⟨by have := hr.1; omega, by have := hr.2.1; omega⟩
+  have trialEv : ∀ (m e : Nat) (cfg : TrialCfg), n0 ≤ m → (e ≠ r.exp ∧ e ≠ r.mc) →
+      (trialOps m e cfg).2 ≠ r.exp ∧ (trialOps m e cfg).2 ≠ r.mc := by
+    intro m e cfg hm he
+    rcases (trialOps_targets m e cfg).2 with h | h <;> rw [h]
+    · exact he
+    · exact big m hm
   cases gop with
-  | genMC keep presel draw sets expFields =>
-    refine ⟨rfl, rfl, ?_⟩
+  | genMC keep presel draw scr vals expFields =>
+    refine ⟨rfl, rfl, ?_, hr.2.2.2⟩
     intro c hc
     simp only [compile, Option.some.injEq] at hc
     subst hc
     exact (C07.cachePlan_spec n0 r keep presel hr).2.1
-  | genFixed _ => exact ⟨rfl, rfl, hr.2.2⟩
-  | genComposite _ _ _ _ _ _ => exact ⟨rfl, rfl, hr.2.2⟩
-  | genSig _ => exact ⟨rfl, rfl, hr.2.2⟩
-  | merge _ _ => exact ⟨rfl, rfl, hr.2.2⟩
-  | initTrial _ _ => exact ⟨rfl, rfl, hr.2.2⟩
-  | unblind _ => exact ⟨rfl, rfl, hr.2.2⟩
-  | unblindAdopt _ => exact ⟨rfl, rfl, hr.2.2⟩
-  | evaluate => exact ⟨rfl, rfl, hr.2.2⟩
+  | genFixed _ _ => exact ⟨rfl, rfl, hr.2.2.1, hr.2.2.2⟩
+  | genComposite _ _ _ _ _ _ _ => exact ⟨rfl, rfl, hr.2.2.1, hr.2.2.2⟩
+  | genSigMC _ _ _ _ => exact ⟨rfl, rfl, hr.2.2.1, hr.2.2.2⟩
+  | genSig _ => exact ⟨rfl, rfl, hr.2.2.1, hr.2.2.2⟩
+  | merge _ _ => exact ⟨rfl, rfl, hr.2.2.1, hr.2.2.2⟩
+  | initTrial e cfg =>
+    refine ⟨rfl, rfl, hr.2.2.1, ?_⟩
+    intro ev hev
+    simp only [compile, Option.some.injEq] at hev
+    subst hev
+    exact trialEv n0 e cfg (le_refl _) hh
+  | unblind cfg =>
+    refine ⟨rfl, rfl, hr.2.2.1, ?_⟩
+    intro ev hev
+    simp only [compile, Option.some.injEq] at hev
+    subst hev
+    exact trialEv (n0 + 1) n0 cfg (by omega) (big n0 (le_refl _))
+  | unblindAdopt _ => exact hh.elim
+  | evaluate fields =>
+    refine ⟨?_, ?_, ?_, ?_⟩ <;> (simp only [compile]; split) <;> first
+      | rfl
+      | exact hr.2.2.1
+      | exact hr.2.2.2
 
 /-- **No pseudo-data operation targets the stored data.**  With `n0` containers in the store, the stored
 containers among them, and handles that are generated containers, none of the container operations of any
@@ -188,10 +222,11 @@ theorem c07_compile_targets (n0 : Nat) (r : Roles) (gop : GOp) (hr : RolesOK n0 
     (∀ op ∈ (compile n0 r gop).1, target op ≠ some r.exp ∧ target op ≠ some r.mc) ∧
     (compile n0 r gop).2.1.exp = r.exp ∧ (compile n0 r gop).2.1.mc = r.mc ∧
     ∀ n', n0 ≤ n' → RolesOK n' (compile n0 r gop).2.1 := by
-  obtain ⟨r1, r2, r3⟩ := C07.compile_roles n0 r gop hr
+  obtain ⟨r1, r2, r3, r4⟩ := C07.compile_roles n0 r gop hr hh
   have hr0 := hr
-  obtain ⟨he, hm, hc⟩ := hr
-  refine ⟨?_, r1, r2, fun n' hn => ⟨by rw [r1]; omega, by rw [r2]; omega, fun c h => by rw [r1, r2]; exact r3 c h⟩⟩
+  obtain ⟨he, hm, hc, hev⟩ := hr
+  refine ⟨?_, r1, r2, fun n' hn => ⟨by rw [r1]; omega, by rw [r2]; omega, fun c h => by rw [r1, r2]; exact r3 c h,
+    fun ev h => by rw [r1, r2]; exact r4 ev h⟩⟩
   have big : ∀ x, n0 ≤ x → x ≠ r.exp ∧ x ≠ r.mc := fun x hx => ⟨by omega, by omega⟩
   suffices hs : ∀ op ∈ (compile n0 r gop).1, ∀ x, target op = some x → x ≠ r.exp ∧ x ≠ r.mc from
     fun op hop => ⟨fun h1 => (hs op hop _ h1).1 rfl, fun h1 => (hs op hop _ h1).2 rfl⟩
@@ -203,12 +238,12 @@ theorem c07_compile_targets (n0 : Nat) (r : Roles) (gop : GOp) (hr : RolesOK n0 
     · exact big _ hm'
   intro op hop x hx
   cases gop with
-  | genFixed sets =>
+  | genFixed scr vals =>
     simp only [compile, List.mem_append, List.mem_singleton] at hop
     rcases hop with h | h
     · subst h; simp [target] at hx
     · rw [mem_setItems h] at hx; cases hx; exact big _ (le_refl _)
-  | genMC keep presel draw sets expFields =>
+  | genMC keep presel draw scr vals expFields =>
     obtain ⟨p1, p2, p3⟩ := C07.cachePlan_spec n0 r keep presel hr0
     simp only [compile, List.mem_append, List.mem_singleton] at hop
     rcases hop with ((h | h) | h) | h
@@ -216,7 +251,7 @@ theorem c07_compile_targets (n0 : Nat) (r : Roles) (gop : GOp) (hr : RolesOK n0 
     · subst h; simp [target] at hx
     · rw [mem_setItems h] at hx; cases hx; exact big _ p3
     · subst h; simp only [target, Option.some.injEq] at hx; subst hx; exact big _ p3
-  | genComposite keep sets rates presel draw expFields =>
+  | genComposite keep scr vals rates presel draw expFields =>
     obtain ⟨q1, q2⟩ := C07.compositePlan_spec n0 presel draw
     simp only [compile, List.mem_append, List.mem_singleton] at hop
     rcases hop with (((h | h) | h) | h) | h
@@ -225,6 +260,14 @@ theorem c07_compile_targets (n0 : Nat) (r : Roles) (gop : GOp) (hr : RolesOK n0 
     · rw [mem_setItems h] at hx; cases hx; exact big _ (le_refl _)
     · exact big _ (q1 op h x hx)
     · subst h; simp only [target, Option.some.injEq] at hx; subst hx; exact big _ q2
+  | genSigMC ev post empty fill =>
+    simp only [compile, List.mem_append, List.mem_singleton, List.mem_cons, List.not_mem_nil, or_false] at hop
+    rcases hop with ((h | h) | h)
+    · subst h; simp [target] at hx
+    · rw [mem_setItems h] at hx; cases hx; exact big _ (le_refl _)
+    · rcases h with h | h
+      · subst h; simp [target] at hx
+      · subst h; simp only [target, Option.some.injEq] at hx; subst hx; exact big _ (by omega)
   | genSig cols =>
     simp only [compile, List.mem_singleton] at hop
     subst hop; simp [target] at hx
@@ -238,7 +281,14 @@ theorem c07_compile_targets (n0 : Nat) (r : Roles) (gop : GOp) (hr : RolesOK n0 
     · subst h; simp [target] at hx
     · exact trial (n0 + 1) n0 (by omega) (big n0 (le_refl _)) cfg op h x hx
   | unblindAdopt cfg => exact hh.elim
-  | evaluate => simp [compile] at hop
+  | evaluate fields =>
+    simp only [compile] at hop
+    cases hev' : r.events with
+    | none => rw [hev'] at hop; cases hop
+    | some ev =>
+      rw [hev'] at hop
+      rw [mem_setItems hop] at hx; cases hx
+      exact hev _ hev'
 
 namespace C07
 
@@ -312,7 +362,8 @@ theorem c07_frame_from_load (expCols mcCols : List (Name × Col)) (gops : List G
     viewAt (grun g0 gops).st 0 = viewAt g0.st 0 ∧ viewAt (grun g0 gops).st 1 = viewAt g0.st 1 := by
   intro g0
   have good := c16_refines_from_init [.new expCols, .new mcCols]
-  have hr : RolesOK g0.st.conts.length g0.roles := ⟨by show 0 < _; rw [hl]; omega, by show 1 < _; rw [hl]; omega, fun c h => by cases h⟩
+  have hr : RolesOK g0.st.conts.length g0.roles :=
+    ⟨by show 0 < _; rw [hl]; omega, by show 1 < _; rw [hl]; omega, (fun c h => by cases h), (fun c h => by cases h)⟩
   obtain ⟨h1, h2, _⟩ := c07_frame g0 _ good hr gops hh
   exact ⟨h1, h2⟩
 
@@ -424,26 +475,28 @@ def demoExp : List (Name × Col) := [(3, ⟨.i16, [3, 1, 2]⟩), (0, ⟨.f32, [1
 def demoG : G := ⟨runH ⟨[], []⟩ [.new demoExp, .new demoExp], ⟨0, 1, none, none⟩⟩
 /-- index field `run` (argsort = [1,2,0]), no event selection, one static data field -/
 def demoCfg : TrialCfg := ⟨[], none, some (3, [1, 2, 0]), [(7, ⟨.f64, [5, 5, 5]⟩)]⟩
+/-- no index field: the static data field goes into the adopted container itself -/
+def demoCfgAdopt : TrialCfg := ⟨[], none, none, [(7, ⟨.f64, [5, 5, 5]⟩)]⟩
 end C07
 
 /-- the full statement for a history containing the pre-fix unblind -/
 def c07_frame_adopt_statement : Prop :=
   ∀ (g : G) (cfg : TrialCfg), viewAt (gstep g (.unblindAdopt cfg)).1.st g.roles.exp = viewAt g.st g.roles.exp
 
-/-- **Counterexample (code before the fix)**: with an index field and no event selection, `unblind` sorts the
-stored experimental data in place (`run = [3,1,2]` becomes `[1,2,3]`) and adds the static data field to it. -/
+/-- **Counterexample (code before the fix)**: `unblind` assigns the static data fields of the trial data manager into the stored experimental data
+(and, before the later fix of `initialize_trial`, also sorted it in place with an index field). -/
 theorem c07_unblind_adopt_counterexample : ¬ c07_frame_adopt_statement := by
   intro h
-  have := h C07.demoG C07.demoCfg
+  have := h C07.demoG C07.demoCfgAdopt
   revert this
   decide
 
 /-- the same witness through the fixed `unblind` leaves the stored data alone, and the trial data are sorted -/
 example : viewAt (gstep C07.demoG (.unblind C07.demoCfg)).1.st 0 = viewAt C07.demoG.st 0 := by decide
-example : (viewAt (gstep C07.demoG (.unblind C07.demoCfg)).1.st 2).toOption.map (·.cols.lookup 3) =
+example : (viewAt (gstep C07.demoG (.unblind C07.demoCfg)).1.st 3).toOption.map (·.cols.lookup 3) =
     some (some ⟨.i16, [1, 2, 3]⟩) := by decide
 example : C07.RolesOK C07.demoG.st.conts.length C07.demoG.roles :=
-  ⟨by decide, by decide, fun c h => by cases h⟩
+  ⟨by decide, by decide, (fun c h => by cases h), (fun c h => by cases h)⟩
 example : HandlesOK C07.demoG.roles (.initTrial 2 C07.demoCfg) := ⟨by decide, by decide⟩
 
 /-! ### right ascension of scrambled events (over the reals) -/
